@@ -586,7 +586,11 @@ func (e *Encoder) typeInvariant(v *SVal) {
 		if t == nil || t.S != RefS || t.Op == "nilref" || t.Op == "root" || t.Op == "sub" || t.Op == "idx" || !c.preExisting(t) {
 			return
 		}
-		f := c.Or(c.Not(c.IsRoot(t)), c.IntLt(c.RootID(t), e.A0))
+		depth := 0
+		if e.deepPre {
+			depth = 4 // parameters: also interior pointers lie in objects that existed at entry
+		}
+		f := c.PreExisting(t, e.A0, depth)
 		if !e.tiFacts[f] {
 			e.tiFacts[f] = true
 			e.assumeFact(f)
@@ -718,6 +722,13 @@ func (e *Encoder) eqVal(a, b *SVal) *Term {
 		// only comparison with nil is legal Go
 		return c.Eq(a.Base, b.Base)
 	case KFunc:
+		// only comparison with nil is legal Go: a nil function value has tag 0
+		if b.Tag != nil && b.Tag.Op == "int" && b.Tag.V == 0 {
+			return c.Eq(a.Tag, c.Int(0))
+		}
+		if a.Tag != nil && a.Tag.Op == "int" && a.Tag.V == 0 {
+			return c.Eq(b.Tag, c.Int(0))
+		}
 		return c.And(c.Eq(a.Tag, b.Tag), c.Eq(a.T, b.T))
 	case KString:
 		return e.stringEq(a, b)
